@@ -64,7 +64,7 @@ def quietRunB : List Block → App → CSet → Bool
     of Lemmas/Quiet2) -/
 
 def fits2B (s : App) (c : CSet) : Bool :=
-  decide (s.index.length ≤ s.params.maxVals) && noShadow s s.index && decide (Comet.total c + idxPow s s.index ≤ maxTotalPower) &&
+  decide ((s.index.filter (fun e => match s.getVal e.2 with | some v => cand v | none => false)).length ≤ s.params.maxVals) && noShadow s s.index && decide (Comet.total c + idxPow s s.index ≤ maxTotalPower) &&
   decide (0 ≤ s.lastTotal) && decide (s.lastTotal ≤ maxTotalPower) &&
   decide (sumF nbTok s.vals ≤ s.notBonded) && decide (sumF bTok s.vals ≤ s.bonded)
 
